@@ -162,7 +162,7 @@ Theorem resolve_resources_spec e resolved rs rs' : resolve_resources e resolved 
     | None => lookup id rs' = None
     | Some r =>
         match gate resolved r with
-        | Ok true => exists r', resolve e r = Ok r' /\ lookup id rs' = Some r'
+        | Ok true => exists r', resolve_resource e r = Ok r' /\ lookup id rs' = Some r'
         | Ok false => lookup id rs' = None
         | Err _ => False
         end
